@@ -381,5 +381,33 @@ PLANS["C16"] = dict(
     timeout=dict(quick=1800, thorough=7200),
 )
 
+
+def c17_runs(tier):
+    q = tier == "quick"
+    return [
+        R("static_pgm", "asan", 120 if q else 1500), R("static_comp", "asan", 120 if q else 1000),
+        R("static_bucket", "asan", 120 if q else 1000), R("static_ef", "asan", 120 if q else 1000),
+        R("segmentation", "asan", 150 if q else 3000), R("dynamic", "asan", 60 if q else 400),
+        R("mapped", "asan", 60 if q else 400), R("multidim", "asan", 60 if q else 400),
+        R("copymove", "asan", 42 if q else 1050), R("cinterface", "asan", 100 if q else 1000),
+    ]
+
+
+PLANS["C17"] = dict(
+    runs=c17_runs,
+    kinds={"asan_report"},
+    always={"crash", "hang"},
+    rule="every engine's workload is re-run by this check under AddressSanitizer (recover mode: each report is attributed to the "
+         "running case; deadly signals are attributed through the begin/end protocol), with the generators biased to the boundary "
+         "corpus: n = 1,2,3, keys at lowest() and max-1, queries at lowest() / below the first / above the last key / max-1, empty "
+         "dynamic containers and erase-all histories, iterators driven to end() from every start, boxes reaching the last stored "
+         "point, single-segment indexes incl. segments_count()/height()/size_in_bytes(), copy/move/destroy orders, the C interface, "
+         "mapped files that end on a page boundary in front of a PROT_NONE guard page; functional answers are NOT judged here - "
+         "only memory errors (ASan report, SEGV/abort of the worker, guard-page fault); a case = as in the engine's own property; "
+         "distinct by input hash",
+    assumptions=ASSUME_COMMON + ["red-zone detector: an overflow that lands inside another live allocation or inside the same object is invisible to AddressSanitizer"],
+    technique="runtime monitoring: AddressSanitizer (recover mode with per-case attribution) + guard pages behind mapped files, over all engines' boundary workloads",
+)
+
 # properties not claimed (filled while the framework is being built; empty once every engine exists)
 NOT_APPLICABLE = {}
